@@ -131,14 +131,36 @@ pub fn volume_string(r: &mut Rng, kind: Volume) -> String {
 
 /// Draws a volume kind (or none) for one run: `limited` = the rows scrolled off are not retained
 /// (a scrollback limit, or the string is sent to the alternate screen), which bounds the memory.
-pub fn draw_volume(r: &mut Rng, limited: bool) -> Option<Volume> {
-    match r.below(30_000) {
+/// `cols` / `rows`: the largest width / height the session reaches (configuration and resize events):
+/// every scrolled row costs its width in cells (and a tall screen its height in row moves), so volume
+/// is kept to ordinary geometries - a 10000-column screen scrolled 500000 times is minutes of
+/// legitimately requested work.
+pub fn draw_volume(r: &mut Rng, limited: bool, cols: usize, rows: usize) -> Option<Volume> {
+    let v = match r.below(30_000) {
         0..=9 => Some(Volume::Lines17),
         10..=19 => Some(Volume::Rep20),
         20 if limited => Some(Volume::Lines20),
         21 if limited => Some(Volume::Chars21),
         _ => None,
+    };
+    match v {
+        Some(Volume::Lines17) if cols > 512 || rows > 512 => None,
+        Some(Volume::Rep20) if cols * rows > 20_000 => None,
+        Some(Volume::Lines20) | Some(Volume::Chars21) if cols > 16 || rows > 50 => None,
+        v => v,
     }
+}
+
+/// the largest width and height among the configuration and the resize events
+pub fn max_geometry(cfg: &crate::trace::Config, evs: &[Event]) -> (usize, usize) {
+    let (mut c, mut r) = (cfg.cols, cfg.rows);
+    for e in evs {
+        if let Event::Resize { cols, rows, .. } = e {
+            c = c.max(*cols);
+            r = r.max(*rows);
+        }
+    }
+    (c, r)
 }
 
 /// The volume string as `k` feed_str events (k = 1: one call).
